@@ -158,6 +158,7 @@ JANET_CORE_FN(cfun_io_fopen,
     if (argc == 2) {
         fmode = janet_getkeyword(argv, 1);
         flags = checkflags(fmode);
+        if (flags < 0) janet_panicf("invalid file mode %v, duplicate flag", argv[1]);
     } else {
         fmode = (const uint8_t *)"r";
         janet_sandbox_assert(JANET_SANDBOX_FS_READ);
